@@ -702,6 +702,67 @@ func c17Directed(c *core.Ctx) bool {
 			return false
 		}
 	}
+	// (d) options given to one test stay with that test, also when the caller spreads a sub-slice of a longer option list (spare capacity)
+	// and uses the longer list for another test afterwards
+	opts := make([]z.TestOption, 0, 8)
+	opts = append(opts, z.Message("m1"), z.IssueCode("c_own"), z.IssuePath("p_own"))
+	never := func(any, z.Ctx) bool { return false }
+	var sv string
+	first := z.String().TestFunc(never, opts[:1]...)
+	second := z.String().TestFunc(never, opts...)
+	third := z.String().Test(z.TestFunc("c3", never, opts[:2]...))
+	fourth := z.String().Min(5, opts...)
+	got := []string{}
+	for _, sch := range []*z.StringSchema[string]{first, second, third, fourth} {
+		l := sch.Parse("ab", &sv)
+		if len(l) != 1 {
+			got = append(got, fmt.Sprintf("%d issues", len(l)))
+			continue
+		}
+		got = append(got, l[0].Code+"/"+l[0].Path+"/"+l[0].Message)
+	}
+	c.Eval(4)
+	if want := "//m1, c_own/p_own/m1, c_own//m1, c_own/p_own/m1"; strings.Join(got, ", ") != want {
+		c.Violation("test-options-leak|shared-option-slice", map[string]any{"schema": "opts := make([]TestOption, 0, 8); opts = append(opts, Message(m1), IssueCode(c_own), IssuePath(p_own)); TestFunc(f, opts[:1]...), TestFunc(f, opts...), Test(TestFunc(c3, f, opts[:2]...)), Min(5, opts...)", "code/path/message": strings.Join(got, ", "), "want": want})
+		return false
+	}
+	// (e) WithCoercer through a Ptr reaches the pointed-to schema whatever that schema is: a list
+	split := func(d any) (any, error) { return strings.Split(fmt.Sprint(d), ","), nil }
+	{
+		var direct []string
+		z.Slice(z.String(), z.WithCoercer(split)).Parse("a,b,c", &direct)
+		var one *[]string
+		m1 := apply(z.Ptr(z.Slice(z.String())), split).Parse("a,b,c", &one)
+		var two **[]string
+		m2 := apply(z.Ptr(z.Ptr(z.Slice(z.String()))), split).Parse("a,b,c", &two)
+		c.Eval(3)
+		g1, g2 := "<nil>", "<nil>"
+		if one != nil {
+			g1 = fmt.Sprint(*one)
+		}
+		if two != nil && *two != nil {
+			g2 = fmt.Sprint(**two)
+		}
+		if len(m1) != 0 || len(m2) != 0 || g1 != fmt.Sprint(direct) || g2 != fmt.Sprint(direct) {
+			c.Violation("coercer-through-ptr-differs-from-coercer-on-the-pointee", map[string]any{"schema": "WithCoercer(split on commas) applied to Ptr(Slice(String())) / Ptr(Ptr(Slice(String())))", "input": "a,b,c", "through_one_pointer": g1, "through_two_pointers": g2, "given_to_the_slice": fmt.Sprint(direct)})
+			return false
+		}
+	}
+	// (f) coercion-setting options replace one another, last one applied wins - also when the last one names the default-looking layout
+	mark := time.Date(1999, 9, 9, 9, 9, 9, 0, time.UTC)
+	always := func(any) (any, error) { return mark, nil }
+	for _, layout := range []string{time.RFC3339, "2006-01-02"} {
+		var tv time.Time
+		text := time.Date(2024, 3, 10, 0, 0, 0, 0, time.UTC).Format(layout)
+		l := z.Time(z.WithCoercer(always), z.Time.Format(layout)).Parse(text, &tv)
+		var tv2 time.Time
+		l2 := z.Time(z.Time.Format(layout), z.WithCoercer(always)).Parse(text, &tv2)
+		c.Eval(2)
+		if len(l) != 0 || tv.Equal(mark) || len(l2) != 0 || !tv2.Equal(mark) {
+			c.Violation("last-call-wins|coercion-options", map[string]any{"layout": layout, "Time(WithCoercer(always mark), Format(layout))": fmt.Sprint(tv, z.Issues.SanitizeList(l)), "Time(Format(layout), WithCoercer(always mark))": fmt.Sprint(tv2, z.Issues.SanitizeList(l2)), "want": "the text parsed by the layout / the mark"})
+			return false
+		}
+	}
 	c.Count("directed_builder_scenarios", 1)
 	return true
 }
